@@ -758,6 +758,75 @@ def correspond(check, n_cases=None, flavor="asan"):
     }
 
 
+def cluster_factor_of_repo():
+    """CLUSTER_FACTOR of the source tree under test (src/encode.h), what compress.c passes to encoder_init()."""
+    import re
+    try:
+        m = re.search(r"#\s*define\s+CLUSTER_FACTOR\s+(\d+)", open(os.path.join(vlib.REPO, "src", "encode.h")).read())
+        return int(m.group(1)) if m else CLUSTER_FACTOR
+    except OSError:
+        return CLUSTER_FACTOR
+
+
+def check_blocks(check, hres, limit=None):
+    """Tie of Properties_C02gen to WHOLE blocks: hres = results of enclib.run_harness() (status, kv, raw) of the real
+    collect()/encode()/transmit() on real inputs.  For every OK block the extracted model of generate_prefix_code() is
+    run on the block's real MTF symbol vector (kv['mtfv'], produced by the real divbwt + do_mtf) with the tree's
+    CLUSTER_FACTOR, and must reproduce the number of tables, the selectors (transmitted numbering) and every
+    transmitted table that the real encode() left in the encoder state (kv['nt'], kv['sels'], kv['lenK']).  This also
+    covers what gen_h.c assumes (code[0][v] = number of v in mtfv, as do_mtf leaves it).  Appends Broken(...) to
+    check.broken; returns a small stats dict."""
+    stats = {"blocks": 0, "compared": 0, "mismatch": 0, "model_err": 0, "nt": {}}
+    try:
+        md = build_model()
+    except vlib.BuildError as ex:
+        check.broken.append(Broken("correspondence", "gen_part.check_blocks: model driver does not build", str(ex)[-1500:]))
+        return stats
+    cf = cluster_factor_of_repo()
+    idx = [i for i, r in enumerate(hres) if r and r[0] == "OK" and "mtfv" in r[1] and "nt" in r[1]]
+    if limit is not None:
+        idx = idx[:limit]
+    stats["blocks"] = len(idx)
+    if not idx:
+        return stats
+    lines = ["G %d %s" % (cf, hres[i][1]["mtfv"]) for i in idx]
+    costs = [cf * (l.count(",") + 1) + 500 for l in lines]
+    consts, outs, fails = run_model(md, lines, costs)
+    for (k, rc, err) in fails[:2]:
+        check.broken.append(Broken("correspondence", "gen model driver failed on a real block (rc=%s): %s" % (rc, lines[k][:200]), err))
+    nrep = 0
+    for k, i in enumerate(idx):
+        kv, b = hres[i][1], outs[k]
+        if b is None:
+            continue
+        fb = _fields(b)
+        stats["compared"] += 1
+        bad = []
+        if not b.startswith("OK "):
+            stats["model_err"] += 1
+            bad = ["model: " + b[:80]]
+        else:
+            stats["nt"][fb.get("nt")] = stats["nt"].get(fb.get("nt"), 0) + 1
+            if fb.get("nt") != kv.get("nt"):
+                bad.append("nt impl=%s model=%s" % (kv.get("nt"), fb.get("nt")))
+            if fb.get("sels") != kv.get("sels"):
+                bad.append("sels impl=%s model=%s" % (str(kv.get("sels"))[:120], str(fb.get("sels"))[:120]))
+            for t in range(int(kv.get("nt", "0") or 0)):
+                key = "len%d" % t
+                if fb.get(key) != kv.get(key):
+                    bad.append("%s impl=%s model=%s" % (key, str(kv.get(key))[:160], str(fb.get(key))[:160]))
+        if bad:
+            stats["mismatch"] += 1
+            nrep += 1
+            if nrep <= 3:
+                check.broken.append(Broken("correspondence",
+                                           "tables/selectors of a real block (encode() state) differ from the model of "
+                                           "generate_prefix_code() run on the block's MTF symbols (cluster_factor=%d, nmtf=%s, as=%s)"
+                                           % (cf, kv.get("nmtf"), kv.get("as")),
+                                           "; ".join(bad[:4]) + " mtfv=" + str(kv.get("mtfv"))[:300]))
+    return stats
+
+
 if __name__ == "__main__":     # stand-alone run: python3 checks/gen_part.py [n_cases] [seed] [quick|thorough]
     class _C:
         pass
